@@ -19,27 +19,27 @@ func init() {
 }
 
 const (
-	aHeloEmpty   = `Conn.helo == ""`
-	aPipeOpen    = `Conn.bdatPipe != nil`
-	aNoFrom      = `Conn.fromReceived == false`
-	aNoRcpt      = `builtin:len(Conn.recipients) == 0`
-	aBinary      = `Conn.binarymime == true`
-	aSessNil     = `Conn.session == nil`
-	aSessSet     = `Conn.session != nil`
-	lReset       = "call:(*Conn).reset"
-	lClose       = "call:(*Conn).Close"
-	lNewSession  = "cb:Backend.NewSession"
-	lMail        = "cb:Session.Mail"
-	lRcpt        = "cb:Session.Rcpt"
-	lData        = "cb:Session.Data"
-	lLMTPData    = "cb:LMTPSession.LMTPData"
-	lSessReset   = "cb:Session.Reset"
-	lLogout      = "cb:Session.Logout"
-	lAuth        = "cb:AuthSession.Auth"
-	lNext        = "cb:sasl.Server.Next"
-	lNewReader   = "call:newDataReader"
-	lPipe        = "call:io.Pipe"
-	lReadLine    = "call:(*Conn).readLine"
+	aHeloEmpty  = `Conn.helo == ""`
+	aPipeOpen   = `Conn.bdatPipe != nil`
+	aNoFrom     = `Conn.fromReceived == false`
+	aNoRcpt     = `builtin:len(Conn.recipients) == 0`
+	aBinary     = `Conn.binarymime == true`
+	aSessNil    = `Conn.session == nil`
+	aSessSet    = `Conn.session != nil`
+	lReset      = "call:(*Conn).reset"
+	lClose      = "call:(*Conn).Close"
+	lNewSession = "cb:Backend.NewSession"
+	lMail       = "cb:Session.Mail"
+	lRcpt       = "cb:Session.Rcpt"
+	lData       = "cb:Session.Data"
+	lLMTPData   = "cb:LMTPSession.LMTPData"
+	lSessReset  = "cb:Session.Reset"
+	lLogout     = "cb:Session.Logout"
+	lAuth       = "cb:AuthSession.Auth"
+	lNext       = "cb:sasl.Server.Next"
+	lNewReader  = "call:newDataReader"
+	lPipe       = "call:io.Pipe"
+	lReadLine   = "call:(*Conn).readLine"
 )
 
 var advancing = []string{lNewSession, lMail, lRcpt, lData, lLMTPData, lAuth, lNext,
